@@ -37,6 +37,8 @@ pub struct Cfg {
     pub max_pubs: usize,
     pub max_subs: usize,
     pub loans: usize,
+    /// publishers carry a backpressure handler that answers DiscardDataAndFail (only without safe overflow)
+    pub fail_on_full: bool,
 }
 
 impl Cfg {
@@ -50,10 +52,16 @@ impl Cfg {
             max_pubs: rng.range(1, 3) as usize,
             max_subs: rng.range(1, 3) as usize,
             loans: rng.range(1, 3) as usize,
+            fail_on_full: false,
         }
+        .with_fail(rng)
+    }
+    fn with_fail(mut self, rng: &mut Rng) -> Cfg {
+        self.fail_on_full = !self.overflow && rng.chance(1, 3);
+        self
     }
     pub fn key(&self) -> String {
-        format!("buf{}h{}b{}o{}p{}s{}l{}", self.buf_max, self.hist, self.borrow, self.overflow as u8, self.max_pubs, self.max_subs, self.loans)
+        format!("buf{}h{}b{}o{}p{}s{}l{}f{}", self.buf_max, self.hist, self.borrow, self.overflow as u8, self.max_pubs, self.max_subs, self.loans, self.fail_on_full as u8)
     }
 }
 
@@ -244,7 +252,9 @@ pub fn run_history<S: Service>(config: &iceoryx2::config::Config, rng: &mut Rng,
                 // create publisher
                 let i = rng.below(cfg.max_pubs as u64) as usize;
                 if w.pubs[i].is_none() {
-                    match svc.publisher_builder().backpressure_strategy(BackpressureStrategy::DiscardData).max_loaned_samples(cfg.loans).create() {
+                    let pb = svc.publisher_builder().backpressure_strategy(BackpressureStrategy::DiscardData).max_loaned_samples(cfg.loans);
+                    let pb = if cfg.fail_on_full { pb.set_backpressure_handler(|_| iceoryx2::port::BackpressureAction::DiscardDataAndFail) } else { pb };
+                    match pb.create() {
                         Ok(p) => {
                             let uid = w.next_uid;
                             w.next_uid += 1;
@@ -376,6 +386,15 @@ pub fn run_history<S: Service>(config: &iceoryx2::config::Config, rng: &mut Rng,
                         if n != expect {
                             fail!("recipient_count", "send returned {} recipients, model {}", n, expect);
                         }
+                        if discarded && cfg.fail_on_full {
+                            // the handler is only consulted when the connection's queue (sized for the service
+                            // maximum) is full; a subscriber with a smaller buffer is skipped silently
+                            ev!("discard_without_consulting_the_handler");
+                        }
+                    }
+                    Err(SendError::UnableToDeliver) if cfg.fail_on_full && discarded => {
+                        w.trace.push(format!("Send{i}(#{:x})->UnableToDeliver", id & 0xffff_ffff));
+                        ev!("send_unable_to_deliver");
                     }
                     Err(e) => fail!("send_failed_inside_limits", "send failed: {:?} (outstanding loans {}, held {})", e, outstanding, w.held.len()),
                 }
@@ -576,8 +595,10 @@ pub fn run_history<S: Service>(config: &iceoryx2::config::Config, rng: &mut Rng,
                 for fill in 0..2 {
                     for n in 0..(cfg.buf_max + cfg.hist + 1) {
                         let id = (0xFFFF << 32) | ((round * 1000 + fill * 100 + n) as u64);
-                        if let Err(e) = w.pubs[i].as_ref().unwrap().0.send_copy(payload(id)) {
-                            fail!("saturation_send_failed", "worst-case fill: send {} failed with {:?}", n, e);
+                        match w.pubs[i].as_ref().unwrap().0.send_copy(payload(id)) {
+                            Ok(_) => {}
+                            Err(SendError::UnableToDeliver) if cfg.fail_on_full => {}
+                            Err(e) => fail!("saturation_send_failed", "worst-case fill: send {} failed with {:?}", n, e),
                         }
                     }
                     if fill == 0 {
